@@ -34,7 +34,7 @@ theorem dtick_invDen {inp : RunInput} {s s' : Sys} {perm : List Name} (hnc : NoC
     (hs : dtick inp s perm = some s') : InvDen inp s' :=
   ⟨dtick_invN hnc h.nodeS hs, h.den.frame (dtick_stOf hs) [] (by simpa using (dtick_outer hs).1) (by simp)⟩
 
-theorem send_invDen {inp : RunInput} {s s0 : Sys} {node : Option Name} {perm : List Name} (h2 : Inv2 inp s)
+theorem send_invDen {inp : RunInput} [NoFailDeliver inp] {s s0 : Sys} {node : Option Name} {perm : List Name} (h2 : Inv2 inp s)
     (h : InvDen inp s) (hnode : sentBack s = node) (hs : send inp s node perm = some s0) : InvDen inp s0 := by
   obtain ⟨_, hst⟩ := send_inv1 h2.inv1 (fun p hp => h2.sb p (by rw [hnode, hp])) hs
   exact ⟨send_invN h.nodeS hs, h.den.frame hst [] (by simpa using (send_outer hs).1.1) (by simp)⟩
@@ -82,7 +82,7 @@ theorem fin_plainD (n w : Nat) : ∀ e ∈ [Ev.fin n w], Ev.plainD e := by
 
 /-! ### the serial runner -/
 
-theorem serialStep_invDen {inp : RunInput} {s s' : Sys} {perm : List Name} (hnc : NoCalc inp) (h2 : Inv2 inp s)
+theorem serialStep_invDen {inp : RunInput} [NoFailDeliver inp] {s s' : Sys} {perm : List Name} (hnc : NoCalc inp) (h2 : Inv2 inp s)
     (h3 : Inv3 inp s) (h : InvDen inp s) (hs : serialStep inp s perm = some s') : InvDen inp s' := by
   unfold serialStep at hs
   cases hr : s.rpc with
@@ -153,7 +153,7 @@ theorem serialStep_invDen {inp : RunInput} {s s' : Sys} {perm : List Name} (hnc 
   | pJoin => simp only [hr] at hs; cases hs
   | halted => simp only [hr] at hs; cases hs
 
-theorem reach_invDen {inp : RunInput} {s : Sys} (hnc : NoCalc inp) (h : Reach inp s) : InvDen inp s := by
+theorem reach_invDen {inp : RunInput} [NoFailDeliver inp] {s : Sys} (hnc : NoCalc inp) (h : Reach inp s) : InvDen inp s := by
   induction h with
   | init => exact init_invDen inp
   | @next s0 s1 c hr hs ih =>
@@ -178,7 +178,7 @@ theorem gReturn_frame (s : Sys) (job : Job) (ret : Ret) :
     · split <;> exact ⟨rfl, rfl⟩
     · exact ⟨rfl, rfl⟩
 
-theorem mainStep_invDen {inp : RunInput} {s s' : Sys} {perm : List Name} (hnc : NoCalc inp) (h2 : Inv2 inp s)
+theorem mainStep_invDen {inp : RunInput} [NoFailDeliver inp] {s s' : Sys} {perm : List Name} (hnc : NoCalc inp) (h2 : Inv2 inp s)
     (h3 : Inv3 inp s) (h : InvDen inp s) (hs : mainStep inp s perm = some s') : InvDen inp s' := by
   unfold mainStep at hs
   cases hr : s.rpc with
@@ -279,7 +279,7 @@ theorem doneStep_invDen {inp : RunInput} {s s' : Sys} {w : Nat} (h : InvDen inp 
   | idle => simp only [hw] at hs; cases hs
   | exited => simp only [hw] at hs; cases hs
 
-theorem preach_invDen {inp : RunInput} {s : Sys} (hnc : NoCalc inp) (h : PReach inp s) : InvDen inp s := by
+theorem preach_invDen {inp : RunInput} [NoFailDeliver inp] {s : Sys} (hnc : NoCalc inp) (h : PReach inp s) : InvDen inp s := by
   induction h with
   | init => exact init_invDen inp
   | @next s0 s1 c hr hs ih =>
